@@ -524,6 +524,24 @@ class Interp:
 
     # -------------------------------------------------------------------------------- branching
     def _branch(self, test: ast.AST, facts: FactMap) -> tuple[Out, FactMap, FactMap]:
+        if getattr(self.a, "short_circuit_tests", False):
+            # exact short-circuit evaluation (opt-in): the atoms of a later operand run only on the facts that reach it
+            if isinstance(test, ast.BoolOp):
+                is_or = isinstance(test.op, ast.Or)
+                ev = Out()
+                cur = facts
+                done: FactMap = {}
+                for v in test.values:
+                    if not cur:
+                        break
+                    e1, t1, f1 = self._branch(v, cur)
+                    ev.merge_abrupt(e1)
+                    fm_merge(done, t1 if is_or else f1)
+                    cur = f1 if is_or else t1
+                return (ev, done, cur) if is_or else (ev, cur, done)
+            if isinstance(test, ast.UnaryOp) and isinstance(test.op, ast.Not):
+                ev, t1, f1 = self._branch(test.operand, facts)
+                return ev, f1, t1
         ev = self.exec_expr(test, facts)
         ta = self.exec_atom(TestAtom(test), ev.normal)
         ev.merge_abrupt(ta)
